@@ -183,9 +183,9 @@ func main() {
 	if !*keep {
 		defer os.RemoveAll(dir)
 	}
-	cfg := solveCfg{dir: dir, fastS: 3, fullS: 45, workers: 16}
+	cfg := solveCfg{dir: dir, fastS: 3, fullS: 120, workers: 8}
 	if *tier == "thorough" {
-		cfg.fastS, cfg.fullS, cfg.confirm = 10, 120, true
+		cfg.fastS, cfg.fullS, cfg.confirm = 10, 300, true
 	}
 	solveAll(all, cfg)
 	tSolve := time.Since(t0)
